@@ -63,7 +63,7 @@ Definition tsOf (a : asIn) : Z := match a_ts a with Some t => t | None => 1 end.
 Definition snrFor (mode : mpdType) (a : asIn) : option Z :=
   match mode with MTimelineNr => a_startNr a | _ => None end.
 
-Lemma splitAS_not_err mode cont k P a e : splitAS mode cont k P a <> Err e.
+Lemma splitAS_not_err mode cont snr k P a e : splitAS mode cont snr k P a <> Err e.
 Proof.
   unfold splitAS. destruct (templateType mode a).
   - destruct (a_dur a); [|discriminate]. destruct (_ =? 0); discriminate.
@@ -71,8 +71,8 @@ Proof.
   - destruct (a_tl a); [|discriminate]. destruct (reduceS _ _ _ _ _). discriminate.
 Qed.
 
-Lemma splitAS_common mode cont k P a o :
-  splitAS mode cont k P a = Ok o -> o_pto o = u64 (k * P * tsOf a) /\ o_cont o = cont.
+Lemma splitAS_common mode cont snr k P a o :
+  splitAS mode cont snr k P a = Ok o -> o_pto o = u64 (k * P * tsOf a) /\ o_cont o = cont.
 Proof.
   unfold splitAS. fold (tsOf a). destruct (templateType mode a).
   - destruct (a_dur a); [|discriminate]. destruct (_ =? 0); [discriminate|].
@@ -83,18 +83,18 @@ Proof.
     intros H; inversion H; subst; cbn; auto.
 Qed.
 
-Lemma splitAS_number mode cont k P a o :
-  templateType mode a = MNumber -> splitAS mode cont k P a = Ok o ->
+Lemma splitAS_number mode cont snr k P a o :
+  templateType mode a = MNumber -> splitAS mode cont snr k P a = Ok o ->
   exists d, a_dur a = Some d /\ d <> 0 /\
-            o_startNr o = Some (u32 (Z.quot (k * P * tsOf a) d)) /\ o_tl o = a_tl a.
+            o_startNr o = Some (u32 (Z.quot (k * P * tsOf a) d + snr)) /\ o_tl o = a_tl a.
 Proof.
   unfold splitAS. fold (tsOf a). intros ->.
   destruct (a_dur a) as [d|]; [|discriminate]. destruct (d =? 0) eqn:E; [discriminate|].
   intros H; inversion H; subst; cbn. exists d. repeat split; auto. lia.
 Qed.
 
-Lemma splitAS_timeline mode cont k P a o :
-  templateType mode a <> MNumber -> splitAS mode cont k P a = Ok o ->
+Lemma splitAS_timeline mode cont snr k P a o :
+  templateType mode a <> MNumber -> splitAS mode cont snr k P a = Ok o ->
   exists es, a_tl a = Some es /\
     o_tl o = Some (map ofEntry (fst (reduceS es (snrFor mode a) (tsOf a) (u64 (k * P)) (u64 ((k + 1) * P))))) /\
     o_startNr o = match mode with
@@ -115,16 +115,16 @@ Qed.
 
 (** * splitPeriod: structure of the result *)
 
-Lemma periodOf_ok mode cont P ases k p :
-  periodOf mode cont P ases k = Ok p ->
+Lemma periodOf_ok mode cont snr P ases k p :
+  periodOf mode cont snr P ases k = Ok p ->
   pd_nr p = k /\ pd_start p = k * P /\
-  Forall2 (fun a o => splitAS mode cont k P a = Ok o) ases (pd_as p).
+  Forall2 (fun a o => splitAS mode cont snr k P a = Ok o) ases (pd_as p).
 Proof.
   unfold periodOf. destruct (mapM _ ases) eqn:E; cbn; try discriminate.
   intros H; inversion H; subst; cbn. repeat split; auto. now apply mapM_ok.
 Qed.
 
-Lemma periodOf_not_err mode cont P ases k e : periodOf mode cont P ases k <> Err e.
+Lemma periodOf_not_err mode cont snr P ases k e : periodOf mode cont snr P ases k <> Err e.
 Proof.
   unfold periodOf. destruct (mapM _ ases) eqn:E; cbn; try discriminate.
   exfalso. revert E. apply mapM_not_err. intros; apply splitAS_not_err.
@@ -142,15 +142,15 @@ Lemma periodDur_pos pph : 1 <= pph <= 3600 -> 1 <= periodDurOf pph <= 3600.
 Proof. unfold periodDurOf. intros. split; [apply Z.div_le_lower_bound; lia|apply Z.div_le_upper_bound; lia]. Qed.
 
 (** The result of an accepted call: one period per k in [k0, k1], id P<k>, start k*P. *)
-Theorem splitPeriod_structure pph seg mode cont st now ases ps :
-  1 <= pph <= 3600 -> 0 < seg -> 0 <= st -> 0 <= now ->
-  splitPeriod pph seg mode cont st now ases = Ok ps ->
+Theorem splitPeriod_structure pph seg mode cont ast snr st now ases ps :
+  1 <= pph <= 3600 -> 0 < seg -> ast <= st -> ast <= now ->
+  splitPeriod pph seg mode cont ast snr st now ases = Ok ps ->
   let P := periodDurOf pph in
-  let k0 := st / (P * 1000) in
-  let k1 := now / (P * 1000) in
+  let k0 := (st - ast) / (P * 1000) in
+  let k1 := (now - ast) / (P * 1000) in
   (P * 1000) mod seg = 0 /\
   Forall2 (fun k p => pd_nr p = k /\ pd_start p = k * P /\
-                      Forall2 (fun a o => splitAS mode cont k P a = Ok o) ases (pd_as p))
+                      Forall2 (fun a o => splitAS mode cont snr k P a = Ok o) ases (pd_as p))
           (seqZ k0 (Z.to_nat (k1 - k0 + 1))) ps.
 Proof.
   intros Hpph Hseg Hst Hnow H P k0 k1.
@@ -162,7 +162,7 @@ Proof.
   rewrite (rem_pos (P * 1000) seg) in H by lia.
   destruct (negb (P * 1000 mod seg =? 0)) eqn:E; [discriminate|].
   replace (P * 1000 =? 0) with false in H by lia.
-  rewrite (quot_pos st), (quot_pos now) in H by lia. fold k0 k1 in H.
+  rewrite (quot_pos (st - ast)), (quot_pos (now - ast)) in H by lia. fold k0 k1 in H.
   destruct (k1 - k0 + 1 <? 0) eqn:E2; [discriminate|].
   split; [lia|].
   apply mapM_ok in H.
@@ -171,10 +171,10 @@ Qed.
 
 (** * Rejection and the periods-per-hour range *)
 
-Theorem splitPeriod_reject pph seg mode cont st now ases :
+Theorem splitPeriod_reject pph seg mode cont ast snr st now ases :
   1 <= pph <= 3600 -> 0 < seg ->
   ((periodDurOf pph * 1000) mod seg <> 0 <->
-   exists e, splitPeriod pph seg mode cont st now ases = Err e).
+   exists e, splitPeriod pph seg mode cont ast snr st now ases = Err e).
 Proof.
   intros Hpph Hseg.
   pose proof (periodDur_pos pph Hpph) as HP.
@@ -191,12 +191,12 @@ Proof.
   - split; [eauto|]. lia.
 Qed.
 
-Theorem splitPeriod_pph_zero seg mode cont st now ases :
-  splitPeriod 0 seg mode cont st now ases = Panic "splitPeriod: integer divide by zero".
+Theorem splitPeriod_pph_zero seg mode cont ast snr st now ases :
+  splitPeriod 0 seg mode cont ast snr st now ases = Panic "splitPeriod: integer divide by zero".
 Proof. reflexivity. Qed.
 
-Theorem splitPeriod_pph_big pph seg mode cont st now ases :
-  3600 < pph -> splitPeriod pph seg mode cont st now ases = Panic "splitPeriod: integer divide by zero".
+Theorem splitPeriod_pph_big pph seg mode cont ast snr st now ases :
+  3600 < pph -> splitPeriod pph seg mode cont ast snr st now ases = Panic "splitPeriod: integer divide by zero".
 Proof.
   intros H. unfold splitPeriod.
   replace (pph =? 0) with false by lia.
@@ -288,13 +288,13 @@ Qed.
     concatenation of the periods' expanded timelines is the single-period timeline restricted to
     [k0*P*ts, (k1+1)*P*ts); each period holds exactly the segments that start inside it; its
     presentationTimeOffset is its start in the media timescale. *)
-Theorem splitPeriod_partition pph seg mode cont st now ases ps j a es :
-  1 <= pph <= 3600 -> 0 < seg -> 0 <= st <= now ->
-  splitPeriod pph seg mode cont st now ases = Ok ps ->
+Theorem splitPeriod_partition pph seg mode cont ast snr st now ases ps j a es :
+  1 <= pph <= 3600 -> 0 < seg -> ast <= st <= now ->
+  splitPeriod pph seg mode cont ast snr st now ases = Ok ps ->
   nth_error ases j = Some a -> templateType mode a <> MNumber -> a_tl a = Some es ->
   let P := periodDurOf pph in
-  let k0 := st / (P * 1000) in
-  let k1 := now / (P * 1000) in
+  let k0 := (st - ast) / (P * 1000) in
+  let k1 := (now - ast) / (P * 1000) in
   let ts := tsOf a in
   goodTL es (snrFor mode a) ts ((k1 + 1) * P) ->
   flat_map (periodTimeline j) ps = filter (inWin (k0 * P * ts) ((k1 + 1) * P * ts)) (expandP es) /\
@@ -308,7 +308,7 @@ Theorem splitPeriod_partition pph seg mode cont st now ases ps j a es :
 Proof.
   intros Hpph Hseg Hst H Hj Hm Htl P k0 k1 ts G.
   pose proof (periodDur_pos pph Hpph) as HP. fold P in HP.
-  destruct (splitPeriod_structure pph seg mode cont st now ases ps Hpph Hseg ltac:(lia) ltac:(lia) H) as [_ F].
+  destruct (splitPeriod_structure pph seg mode cont ast snr st now ases ps Hpph Hseg ltac:(lia) ltac:(lia) H) as [_ F].
   fold P k0 k1 in F.
   assert (Hk0 : 0 <= k0) by (unfold k0; apply Z.div_pos; lia).
   assert (Hk01 : k0 <= k1) by (unfold k0, k1; apply Z.div_le_mono; lia).
@@ -331,9 +331,9 @@ Proof.
   { eapply Forall2_impl; [|exact F]. cbn beta.
     intros k p (Hk & Hnr & Hstart & Has).
     destruct (Forall2_nth_error _ _ _ _ _ Has Hj) as (o & Ho & Hsplit).
-    destruct (splitAS_timeline _ _ _ _ _ _ Hm Hsplit) as (es' & Hes' & Hotl & Hosnr).
+    destruct (splitAS_timeline _ _ _ _ _ _ _ Hm Hsplit) as (es' & Hes' & Hotl & Hosnr).
     rewrite Htl in Hes'. inversion Hes'; subst es'. clear Hes'.
-    destruct (splitAS_common _ _ _ _ _ _ Hsplit) as (Hpto & _).
+    destruct (splitAS_common _ _ _ _ _ _ _ Hsplit) as (Hpto & _).
     fold ts in Hotl, Hosnr, Hpto.
     pose proof (one_period es (snrFor mode a) ts P k ((k1 + 1) * P) G ltac:(lia) ltac:(lia) ltac:(nia)) as (O1 & _ & O3).
     assert (HT : periodTimeline j p = filter (inWin (k * P * ts) ((k + 1) * P * ts)) (expandP es)).
@@ -375,13 +375,13 @@ Proof.
   pose proof (Z.mul_succ_div_gt t (P * ts) ltac:(nia)). nia.
 Qed.
 
-Theorem splitPeriod_exactly_one pph seg mode cont st now ases ps j a es :
-  1 <= pph <= 3600 -> 0 < seg -> 0 <= st <= now ->
-  splitPeriod pph seg mode cont st now ases = Ok ps ->
+Theorem splitPeriod_exactly_one pph seg mode cont ast snr st now ases ps j a es :
+  1 <= pph <= 3600 -> 0 < seg -> ast <= st <= now ->
+  splitPeriod pph seg mode cont ast snr st now ases = Ok ps ->
   nth_error ases j = Some a -> templateType mode a <> MNumber -> a_tl a = Some es ->
   let P := periodDurOf pph in
-  let k0 := st / (P * 1000) in
-  let k1 := now / (P * 1000) in
+  let k0 := (st - ast) / (P * 1000) in
+  let k1 := (now - ast) / (P * 1000) in
   let ts := tsOf a in
   goodTL es (snrFor mode a) ts ((k1 + 1) * P) ->
   forall x, In x (expandP es) -> k0 * P * ts <= fst x < (k1 + 1) * P * ts ->
@@ -392,13 +392,13 @@ Proof.
   intros Hpph Hseg Hst H Hj Hm Htl P k0 k1 ts G x Hx Hrange.
   pose proof (periodDur_pos pph Hpph) as HP. fold P in HP.
   assert (Hts : 0 < ts) by (destruct G; lia).
-  destruct (splitPeriod_partition pph seg mode cont st now ases ps j a es Hpph Hseg Hst H Hj Hm Htl G) as [Hcat Hall].
+  destruct (splitPeriod_partition pph seg mode cont ast snr st now ases ps j a es Hpph Hseg Hst H Hj Hm Htl G) as [Hcat Hall].
   fold P k0 k1 ts in Hcat, Hall.
   assert (Hin : In x (flat_map (periodTimeline j) ps)).
   { rewrite Hcat. apply filter_In. split; [assumption|]. unfold inWin. lia. }
   apply in_flat_map in Hin. destruct Hin as (p & Hp & Hxp).
   rewrite Forall_forall in Hall.
-  destruct (splitPeriod_structure pph seg mode cont st now ases ps Hpph Hseg ltac:(lia) ltac:(lia) H) as [_ F].
+  destruct (splitPeriod_structure pph seg mode cont ast snr st now ases ps Hpph Hseg ltac:(lia) ltac:(lia) H) as [_ F].
   fold P in F.
   assert (Hstart : forall q, In q ps -> pd_start q = pd_nr q * P).
   { intros q Hq. clear -F Hq. induction F as [|k q' l l' [Hk [Hs _]] _ IH]; [destruct Hq|].
@@ -414,20 +414,20 @@ Proof.
 Qed.
 
 (** ids and starts are a function of k only: stable over time *)
-Theorem splitPeriod_ids_stable pph seg mode cont st1 now1 st2 now2 ases1 ases2 ps1 ps2 p1 p2 :
-  1 <= pph <= 3600 -> 0 < seg -> 0 <= st1 -> 0 <= now1 -> 0 <= st2 -> 0 <= now2 ->
-  splitPeriod pph seg mode cont st1 now1 ases1 = Ok ps1 ->
-  splitPeriod pph seg mode cont st2 now2 ases2 = Ok ps2 ->
+Theorem splitPeriod_ids_stable pph seg mode cont ast snr st1 now1 st2 now2 ases1 ases2 ps1 ps2 p1 p2 :
+  1 <= pph <= 3600 -> 0 < seg -> ast <= st1 -> ast <= now1 -> ast <= st2 -> ast <= now2 ->
+  splitPeriod pph seg mode cont ast snr st1 now1 ases1 = Ok ps1 ->
+  splitPeriod pph seg mode cont ast snr st2 now2 ases2 = Ok ps2 ->
   In p1 ps1 -> In p2 ps2 ->
   pd_start p1 = pd_nr p1 * periodDurOf pph /\
   (pd_nr p1 = pd_nr p2 <-> pd_start p1 = pd_start p2).
 Proof.
   intros Hpph Hseg H1 H2 H3 H4 S1 S2 I1 I2.
   pose proof (periodDur_pos pph Hpph) as HP.
-  destruct (splitPeriod_structure _ _ _ _ _ _ _ _ Hpph Hseg H1 H2 S1) as [_ F1].
-  destruct (splitPeriod_structure _ _ _ _ _ _ _ _ Hpph Hseg H3 H4 S2) as [_ F2].
+  destruct (splitPeriod_structure _ _ _ _ _ _ _ _ _ _ Hpph Hseg H1 H2 S1) as [_ F1].
+  destruct (splitPeriod_structure _ _ _ _ _ _ _ _ _ _ Hpph Hseg H3 H4 S2) as [_ F2].
   assert (Q : forall l ps q, Forall2 (fun k p => pd_nr p = k /\ pd_start p = k * periodDurOf pph /\
-                 Forall2 (fun a o => splitAS mode cont k (periodDurOf pph) a = Ok o) l (pd_as p)) 
+                 Forall2 (fun a o => splitAS mode cont snr k (periodDurOf pph) a = Ok o) l (pd_as p)) 
                  (seqZ (fst q) (snd q)) ps -> forall p, In p ps -> pd_start p = pd_nr p * periodDurOf pph).
   { intros l ps q F. induction F as [|k q' la lb [Hk [Hs _]] _ IH]; intros p Hp; [destruct Hp|].
     destruct Hp as [<-|Hp]; [lia|auto]. }
@@ -438,28 +438,28 @@ Qed.
 
 (** the periods tile wall-clock time: consecutive numbers from the period containing the window
     start to the period containing now *)
-Theorem splitPeriod_tiles pph seg mode cont st now ases ps :
-  1 <= pph <= 3600 -> 0 < seg -> 0 <= st <= now ->
-  splitPeriod pph seg mode cont st now ases = Ok ps ->
+Theorem splitPeriod_tiles pph seg mode cont ast snr st now ases ps :
+  1 <= pph <= 3600 -> 0 < seg -> ast <= st <= now ->
+  splitPeriod pph seg mode cont ast snr st now ases = Ok ps ->
   let P := periodDurOf pph in
-  let k0 := st / (P * 1000) in
-  let k1 := now / (P * 1000) in
+  let k0 := (st - ast) / (P * 1000) in
+  let k1 := (now - ast) / (P * 1000) in
   map pd_nr ps = seqZ k0 (Z.to_nat (k1 - k0 + 1)) /\
   map pd_start ps = map (fun k => k * P) (seqZ k0 (Z.to_nat (k1 - k0 + 1))) /\
   k0 <= k1 /\
-  k0 * P * 1000 <= st < (k0 + 1) * P * 1000 /\
-  k1 * P * 1000 <= now < (k1 + 1) * P * 1000.
+  ast + k0 * P * 1000 <= st < ast + (k0 + 1) * P * 1000 /\
+  ast + k1 * P * 1000 <= now < ast + (k1 + 1) * P * 1000.
 Proof.
   intros Hpph Hseg Hst H P k0 k1.
   pose proof (periodDur_pos pph Hpph) as HP. fold P in HP.
-  destruct (splitPeriod_structure pph seg mode cont st now ases ps Hpph Hseg ltac:(lia) ltac:(lia) H) as [_ F].
+  destruct (splitPeriod_structure pph seg mode cont ast snr st now ases ps Hpph Hseg ltac:(lia) ltac:(lia) H) as [_ F].
   fold P k0 k1 in F.
   split; [|split; [|split; [|split]]].
   - rewrite <- (map_id (seqZ k0 _)). eapply Forall2_map_eq; [exact F|]. cbn beta. intros k p [Hk _]. exact Hk.
   - eapply Forall2_map_eq; [exact F|]. cbn beta. intros k p [_ [Hk _]]. exact Hk.
   - unfold k0, k1. apply Z.div_le_mono; lia.
-  - unfold k0. pose proof (in_window_which P 1000 st ltac:(lia) ltac:(lia) ltac:(lia)) as Q. cbn zeta in Q. lia.
-  - unfold k1. pose proof (in_window_which P 1000 now ltac:(lia) ltac:(lia) ltac:(lia)) as Q. cbn zeta in Q. lia.
+  - unfold k0. pose proof (in_window_which P 1000 (st - ast) ltac:(lia) ltac:(lia) ltac:(lia)) as Q. cbn zeta in Q. lia.
+  - unfold k1. pose proof (in_window_which P 1000 (now - ast) ltac:(lia) ltac:(lia) ltac:(lia)) as Q. cbn zeta in Q. lia.
 Qed.
 
 (** * Numbers *)
@@ -516,25 +516,26 @@ Proof.
   apply Z.mod_divide; [lia|]. exists q. nia.
 Qed.
 
-Theorem number_mode_aligned mode cont k P a o d :
-  templateType mode a = MNumber -> splitAS mode cont k P a = Ok o -> a_dur a = Some d ->
-  0 <= k -> 0 < P -> 0 < tsOf a -> 0 < d -> (P * tsOf a) mod d = 0 ->
-  k * P * tsOf a < two64 -> k * P * tsOf a < two32 * d ->
-  exists n, o_startNr o = Some n /\ n = k * (P * tsOf a / d) /\ n * d = k * P * tsOf a /\
+Theorem number_mode_aligned mode cont snr k P a o d :
+  templateType mode a = MNumber -> splitAS mode cont snr k P a = Ok o -> a_dur a = Some d ->
+  0 <= k -> 0 < P -> 0 < tsOf a -> 0 < d -> (P * tsOf a) mod d = 0 -> 0 <= snr ->
+  k * P * tsOf a < two64 -> k * (P * tsOf a / d) + snr < two32 ->
+  exists n, o_startNr o = Some n /\ n = snr + k * (P * tsOf a / d) /\ (n - snr) * d = k * P * tsOf a /\
             o_pto o = k * P * tsOf a.
 Proof.
-  intros Hm Hs Hd Hk HP Hts Hdp Hal H64 H32.
-  destruct (splitAS_number _ _ _ _ _ _ Hm Hs) as (d' & Hd' & _ & Hn & _).
+  intros Hm Hs Hd Hk HP Hts Hdp Hal Hsnr H64 H32.
+  destruct (splitAS_number _ _ _ _ _ _ _ Hm Hs) as (d' & Hd' & _ & Hn & _).
   rewrite Hd in Hd'. inversion Hd'; subst d'. clear Hd'.
-  destruct (splitAS_common _ _ _ _ _ _ Hs) as (Hpto & _).
+  destruct (splitAS_common _ _ _ _ _ _ _ Hs) as (Hpto & _).
   apply Z.mod_divide in Hal; [|lia]. destruct Hal as [q Hq].
   assert (Hq0 : 0 <= q) by nia.
   assert (Hquot : Z.quot (k * P * tsOf a) d = k * q).
   { rewrite quot_pos by nia. replace (k * P * tsOf a) with ((k * q) * d) by nia. apply Z.div_mul. lia. }
-  exists (k * q). rewrite Hn, Hquot.
-  assert (P * tsOf a / d = q) as -> by (rewrite Hq; apply Z.div_mul; lia).
+  assert (Hdiv : P * tsOf a / d = q) by (rewrite Hq; apply Z.div_mul; lia).
+  rewrite Hdiv in *.
+  exists (k * q + snr). rewrite Hn, Hquot.
   rewrite u32_id by nia. rewrite Hpto, u64_id by nia.
-  repeat split; try reflexivity. nia.
+  repeat split; try reflexivity; nia.
 Qed.
 
 (** For a constant-duration representation the looped timeline of C01 is [S r n = n * d]: the
@@ -564,22 +565,23 @@ Qed.
 (** * publishTime in $Number$ mode *)
 
 Theorem livePeriods_publish loopMS c now tsbdMS pph seg cont ases ps pt :
-  1 <= pph <= 3600 -> 0 < seg -> 0 <= startS c -> startS c * 1000 <= now -> 0 <= tsbdMS ->
+  1 <= pph <= 3600 -> 0 < seg -> startS c * 1000 <= now -> 0 <= tsbdMS ->
   livePeriods loopMS c now tsbdMS pph seg MNumber cont ases = Ok (ps, pt) ->
-  pt = Some (startS c + now / (periodDurOf pph * 1000) * periodDurOf pph).
+  pt = Some (startS c + (now - startS c * 1000) / (periodDurOf pph * 1000) * periodDurOf pph).
 Proof.
-  intros Hpph Hseg Hs0 Hs Ht H.
+  intros Hpph Hseg Hs Ht H.
   unfold livePeriods in H.
+  replace ((pph <=? 0) || (3600 <? pph)) with false in H by lia.
   set (wt := calcWrapTimes loopMS c now tsbdMS) in *.
   assert (Hw : wnowMS wt = now) by reflexivity.
-  assert (Hst : 0 <= startTimeMS wt <= now).
+  assert (Hst : startS c * 1000 <= startTimeMS wt <= now).
   { unfold wt, calcWrapTimes. cbn [startTimeMS]. destruct (now - tsbdMS <? startS c * 1000) eqn:E; lia. }
-  destruct (splitPeriod pph seg MNumber cont (startTimeMS wt) (wnowMS wt) ases) as [ps'| |] eqn:E; cbn in H; try discriminate.
+  destruct (splitPeriod pph seg MNumber cont (startS c * 1000) (startNr c) (startTimeMS wt) (wnowMS wt) ases) as [ps'| |] eqn:E; cbn in H; try discriminate.
   rewrite Hw in E.
-  destruct (splitPeriod_tiles pph seg MNumber cont (startTimeMS wt) now ases ps' Hpph Hseg Hst E) as (_ & Hstarts & Hle & _).
+  destruct (splitPeriod_tiles pph seg MNumber cont (startS c * 1000) (startNr c) (startTimeMS wt) now ases ps' Hpph Hseg Hst E) as (_ & Hstarts & Hle & _).
   unfold lastPeriodStartTime in H.
   set (P := periodDurOf pph) in *.
-  set (k0 := startTimeMS wt / (P * 1000)) in *. set (k1 := now / (P * 1000)) in *.
+  set (k0 := (startTimeMS wt - startS c * 1000) / (P * 1000)) in *. set (k1 := (now - startS c * 1000) / (P * 1000)) in *.
   assert (Hn : Z.to_nat (k1 - k0 + 1) = Datatypes.S (Z.to_nat (k1 - k0))) by lia.
   rewrite Hn, seqZ_snoc, map_app in Hstarts. cbn [map] in Hstarts.
   assert (Hrev : map pd_start (rev ps') = rev (map pd_start ps')) by (apply map_rev).
@@ -591,11 +593,58 @@ Qed.
 
 (** * Witnesses *)
 
-(** periods_0 and periods_5000: the handler panics (integer divide by zero). *)
-Lemma pph_range_witness :
-  splitPeriod 0 2000 MNumber false 40000 100000 [] = Panic "splitPeriod: integer divide by zero" /\
-  splitPeriod 5000 2000 MNumber false 40000 100000 [] = Panic "splitPeriod: integer divide by zero".
-Proof. split; reflexivity. Qed.
+(** The range check of periods-per-hour sits in verifyAndFillConfig (commit 9fbd9f7): every value
+    outside 1..3600 is refused before splitPeriod is reached. *)
+Theorem livePeriods_pph_range loopMS c now tsbdMS pph seg mode cont ases :
+  pph <= 0 \/ 3600 < pph ->
+  livePeriods loopMS c now tsbdMS pph seg mode cont ases = Err pphRangeMsg.
+Proof. intros H. unfold livePeriods. replace ((pph <=? 0) || (3600 <? pph)) with true by lia. reflexivity. Qed.
+
+(** Inside the range, for an accepted value and AdaptationSets as LiveMPD hands them over (a
+    SegmentTimeline in the timeline modes, a non-zero @duration for $Number$ templates), the
+    split always succeeds: no panic is left. *)
+Definition wellShaped (mode : mpdType) (a : asIn) : Prop :=
+  match templateType mode a with
+  | MNumber => exists d, a_dur a = Some d /\ d <> 0
+  | _ => a_tl a <> None
+  end.
+
+Lemma splitAS_total mode cont snr k P a : wellShaped mode a -> exists o, splitAS mode cont snr k P a = Ok o.
+Proof.
+  unfold wellShaped, splitAS. destruct (templateType mode a).
+  - intros (d & -> & Hd). replace (d =? 0) with false by lia. eauto.
+  - destruct (a_tl a); [|congruence]. intros _. destruct (reduceS _ _ _ _ _). eauto.
+  - destruct (a_tl a); [|congruence]. intros _. destruct (reduceS _ _ _ _ _). eauto.
+Qed.
+
+Lemma mapM_total {A B} (f : A -> res B) l : (forall x, In x l -> exists y, f x = Ok y) -> exists ys, mapM f l = Ok ys.
+Proof.
+  induction l as [|x l IH]; intros H; cbn; [eauto|].
+  destruct (H x ltac:(now left)) as [y ->]. destruct IH as [ys ->]; [intros; apply H; now right|].
+  cbn. eauto.
+Qed.
+
+Theorem splitPeriod_total pph seg mode cont ast snr st now ases :
+  1 <= pph <= 3600 -> 0 < seg -> (periodDurOf pph * 1000) mod seg = 0 -> ast <= st <= now ->
+  Forall (wellShaped mode) ases ->
+  exists ps, splitPeriod pph seg mode cont ast snr st now ases = Ok ps.
+Proof.
+  intros Hpph Hseg Hacc Hst Hws.
+  pose proof (periodDur_pos pph Hpph) as HP.
+  unfold splitPeriod.
+  replace (pph =? 0) with false by lia.
+  rewrite (quot_pos 3600 pph) by lia. fold (periodDurOf pph).
+  replace (seg =? 0) with false by lia.
+  rewrite (rem_pos (periodDurOf pph * 1000) seg) by lia.
+  replace (periodDurOf pph * 1000 mod seg =? 0) with true by lia. cbn [negb].
+  replace (periodDurOf pph * 1000 =? 0) with false by lia.
+  rewrite (quot_pos (st - ast)), (quot_pos (now - ast)) by lia.
+  assert ((st - ast) / (periodDurOf pph * 1000) <= (now - ast) / (periodDurOf pph * 1000)) by (apply Z.div_le_mono; lia).
+  match goal with |- context [if ?c then _ else _] => replace c with false by lia end.
+  apply mapM_total. intros k _. unfold periodOf.
+  destruct (mapM_total (splitAS mode cont snr k (periodDurOf pph)) ases) as [out ->]; [|cbn; eauto].
+  intros a Ha. apply splitAS_total. rewrite Forall_forall in Hws. now apply Hws.
+Qed.
 
 (** The 29.97 fps asset: video template 60060/30000 = 2.002 s, but asset.SegmentDurMS = 2000
     (minimum over the representations): periods_1 (3600 s, not a multiple of 2.002 s) is
@@ -605,7 +654,7 @@ Definition wave2997 : asIn :=
   {| a_image := false; a_ts := Some 30000; a_dur := Some 60060; a_startNr := Some 0; a_tl := None |}.
 Lemma reject_witness :
   (3600 * 1000 * 30000) mod (60060 * 1000) <> 0 /\
-  splitPeriod 1 2000 MNumber false 3541000 3601000 [wave2997] =
+  splitPeriod 1 2000 MNumber false 0 0 3541000 3601000 [wave2997] =
     Ok [ {| pd_nr := 0; pd_start := 0; pd_as := [ {| o_pto := 0; o_startNr := Some 0; o_tl := None; o_cont := false |} ] |};
          {| pd_nr := 1; pd_start := 3600;
             pd_as := [ {| o_pto := 108000000; o_startNr := Some 1798; o_tl := None; o_cont := false |} ] |} ] /\
@@ -617,20 +666,20 @@ Proof. split; [|split]; vm_compute; try reflexivity; discriminate. Qed.
     segments, now = 59 s, periods_60 - the single-period timeline lists [60 s, 62 s). *)
 Definition atoTL : list pS := [ {| p_t := Some 0; p_d := 180000; p_r := 30 |} ].
 Lemma late_segment_witness :
-  In (5400000, 180000) (expandP atoTL) /\
-  splitPeriod 60 2000 MTimelineTime false 0 59000
+  existsb (fun x => fst x =? 5400000) (expandP atoTL) = true /\
+  splitPeriod 60 2000 MTimelineTime false 0 0 0 59000
     [ {| a_image := false; a_ts := Some 90000; a_dur := None; a_startNr := None; a_tl := Some atoTL |} ] =
   Ok [ {| pd_nr := 0; pd_start := 0;
           pd_as := [ {| o_pto := 0; o_startNr := None; o_tl := Some [ {| p_t := Some 0; p_d := 180000; p_r := 29 |} ]; o_cont := false |} ] |} ].
-Proof. split; [vm_compute; intuition|vm_compute; reflexivity]. Qed.
+Proof. split; vm_compute; reflexivity. Qed.
 
-(** $Number$ mode with a start number: period k gets k*P*ts/d, the single-period MPD has
-    startNumber = snr: the segment at the period start has number snr + k*P*ts/d there. *)
-Lemma snr_witness :
-  splitPeriod 60 2000 MNumber false 60500 120500
+(** $Number$ mode with start number 5 and availabilityStartTime 1000 s: period k (counted from
+    availabilityStartTime) gets 5 + k*P*ts/d. *)
+Lemma snr_start_example :
+  splitPeriod 60 2000 MNumber false 1000000 5 1060500 1120500
     [ {| a_image := false; a_ts := None; a_dur := Some 2; a_startNr := Some 5; a_tl := None |} ] =
-  Ok [ {| pd_nr := 1; pd_start := 60; pd_as := [ {| o_pto := 60; o_startNr := Some 30; o_tl := None; o_cont := false |} ] |};
-       {| pd_nr := 2; pd_start := 120; pd_as := [ {| o_pto := 120; o_startNr := Some 60; o_tl := None; o_cont := false |} ] |} ].
+  Ok [ {| pd_nr := 1; pd_start := 60; pd_as := [ {| o_pto := 60; o_startNr := Some 35; o_tl := None; o_cont := false |} ] |};
+       {| pd_nr := 2; pd_start := 120; pd_as := [ {| o_pto := 120; o_startNr := Some 65; o_tl := None; o_cont := false |} ] |} ].
 Proof. vm_compute. reflexivity. Qed.
 
 (** non-vacuity of the partition hypotheses *)
@@ -638,3 +687,33 @@ Definition exTL : list pS :=
   [ {| p_t := Some 3420000; p_d := 180000; p_r := 10 |}; {| p_t := None; p_d := 360000; p_r := 0 |};
     {| p_t := None; p_d := 180000; p_r := 17 |} ].
 Definition exAS : asIn := {| a_image := false; a_ts := Some 90000; a_dur := None; a_startNr := Some 19; a_tl := Some exTL |}.
+
+(** boolean check of the hypotheses of the partition theorem, for concrete instances *)
+Fixpoint chainb (xs : list (Z * Z)) : bool :=
+  match xs with
+  | (t, d) :: (((t', _) :: _) as r) => (t' =? t + d) && chainb r
+  | _ => true
+  end.
+Lemma chainb_ok xs : chainb xs = true -> chain xs.
+Proof.
+  induction xs as [|[t d] r IH]; intros H; [exact I|].
+  destruct r as [|[t' d'] r']; [exact I|].
+  cbn [chainb] in H. apply andb_true_iff in H. destruct H as [H1 H2].
+  cbn [chain]. split; [lia|]. now apply IH.
+Qed.
+Definition inRangeb (xs : list (Z * Z)) : bool :=
+  forallb (fun x => (0 <=? fst x) && (0 <=? snd x) && (fst x + snd x <? two64)) xs.
+Lemma inRangeb_ok xs : inRangeb xs = true -> inRange xs.
+Proof.
+  unfold inRangeb, inRange. intros H. rewrite forallb_forall in H. apply Forall_forall.
+  intros x Hx. specialize (H x Hx). lia.
+Qed.
+Definition goodTLb (es : list pS) (snr : option Z) (ts hi : Z) : bool :=
+  chainb (expandP es) && inRangeb (expandP es) && (0 <=? startNrOf snr) &&
+  (startNrOf snr + lenZ (expandP es) <? two32) && (0 <? ts) && (ts <? two64) && (hi * ts <? two64).
+Lemma goodTLb_ok es snr ts hi : goodTLb es snr ts hi = true -> goodTL es snr ts hi.
+Proof.
+  unfold goodTLb. intros H.
+  repeat (apply andb_true_iff in H; destruct H as [H ?]).
+  constructor; try lia; [now apply chainb_ok|now apply inRangeb_ok].
+Qed.
